@@ -1,7 +1,8 @@
 """C01 - every subscriber sees a well-formed notification sequence.
 (a) Ops1.tla scenarios whose SOURCE is non-conforming (goes on after its terminal notification, terminates twice):
     the model consumes the surplus without effect, so the expected observation is the conforming one; also with the
-    subscriber's own callbacks raising (grammar of what it saw).
+    subscriber's own callbacks raising (grammar of what it saw), and with terminal callbacks that RE-ENTER a still-alive
+    non-conforming source synchronously.
 (b) Lifecycle.tla as trace monitor (guard of Sink: only while no terminal was seen) over pipelines of every catalogue
     operator, alone and composed to depth 2-3, on conforming and non-conforming hot/cold sources.
 (c) Subscribe.tla's auto-detach protocol model, when present (props/c01_core.py)."""
@@ -24,6 +25,7 @@ def variants(scn):
     h = len(str(scn))
     out = [dict(mode="junk", hot=bool(h % 2), tmap="spread", profile="plain", k=K[0], salt=h % 2, junk=JUNKS[h % len(JUNKS)]),
            dict(mode="junk", hot=not bool(h % 2), tmap="bunched", profile="plain", k=K[0], salt=0, junk=JUNKS[(h + 2) % len(JUNKS)])]
+    out.append(dict(mode="reenter", profile="plain", k=K[0], salt=h % 2, reenter=[["N", "C"], ["N"], ["N", "E"], ["C", "N"]][h % 4]))
     out.append(dict(mode="sink_raise", hot=bool(h % 2), tmap="spread", profile="plain", k=K[0], salt=0,
                     which=[["N", 1], ["N", 2], ["C", 1], ["E", 1]][h % 4]))
     return out
@@ -50,7 +52,7 @@ def run(tier):
     except ImportError:
         ck.note("autodetach_model", "not present")
     ck.note("pipeline_runs", st)
-    ck.rule = (f"(a) every Ops1 scenario ({k} tokens, length 0..{n}) x 2 surplus-notification patterns x 1 raising-subscriber pattern; "
+    ck.rule = (f"(a) every Ops1 scenario ({k} tokens, length 0..{n}) x 2 surplus-notification patterns x 1 re-entrant terminal callback x 1 raising-subscriber pattern; "
                f"(b) each catalogue operator x {per_op} seeded scenarios conforming + {per_op} non-conforming, {nd} depth-2 and {nd} depth-3 "
                "pipelines; non-trivial = scenarios whose source emits after its terminal, plus traces with at least one sink notification")
     ck.nontrivial = len(groups) + st["single_junk"]["validated"] + st["depth2_junk"]["validated"]
